@@ -310,6 +310,23 @@ func (c *prCtx) assign(st *ast.AssignStmt) (string, bool) {
 						sets = append(sets, fmt.Sprintf("SSetIndex %s %s %s (EId %s)", coqString(id.Name), coqString(""), c.expr(l.Index), coqString(t)))
 						continue
 					}
+					// x.f.g[i] = e : an entry of the map (or slice) two or more fields down; the path is written f.g
+					{
+						var path []string
+						e := l.X
+						for {
+							sel, ok := e.(*ast.SelectorExpr)
+							if !ok {
+								break
+							}
+							path = append([]string{sel.Sel.Name}, path...)
+							e = sel.X
+						}
+						if id, ok := e.(*ast.Ident); ok && len(path) > 1 {
+							sets = append(sets, fmt.Sprintf("SSetIndex %s %s %s (EId %s)", coqString(id.Name), coqString(strings.Join(path, ".")), c.expr(l.Index), coqString(t)))
+							continue
+						}
+					}
 					return "", false
 				default:
 					return "", false
@@ -380,6 +397,32 @@ func (c *prCtx) stmt(st ast.Stmt) []string {
 			if good && len(out) > 0 {
 				return out
 			}
+		}
+		// const x = e: a binding like any other (go/types folds the uses; the binding is kept for the record)
+		if gd, ok := st.Decl.(*ast.GenDecl); ok && gd.Tok == token.CONST && c.valueMode {
+			var out []string
+			good := true
+			for _, sp := range gd.Specs {
+				vs, ok := sp.(*ast.ValueSpec)
+				if !ok || len(vs.Values) != len(vs.Names) {
+					good = false
+					break
+				}
+				for i, nm := range vs.Names {
+					out = append(out, fmt.Sprintf("SLet true [%s] %s", coqString(nm.Name), c.expr(vs.Values[i])))
+				}
+			}
+			if good && len(out) > 0 {
+				return out
+			}
+		}
+	case *ast.IncDecStmt:
+		if id, ok := st.X.(*ast.Ident); ok && c.valueMode {
+			op := "+"
+			if st.Tok == token.DEC {
+				op = "-"
+			}
+			return []string{fmt.Sprintf("SLet false [%s] (EBin %s (EId %s) (EConst \"\" 1%%Z))", coqString(id.Name), coqString(op), coqString(id.Name))}
 		}
 	case *ast.ExprStmt:
 		call, ok := st.X.(*ast.CallExpr)
@@ -615,7 +658,7 @@ Inductive gstmt :=
 (* p_type is package.Type for a method, empty for a package-level helper *)
 Record printer := { p_pkg : string; p_type : string; p_method : string; p_recv : string; p_body : list gstmt }.`)
 	type item struct{ pkg, typ, method, recv, body string }
-	var items []item
+	var items, restItems []item
 	helperSeen := map[string]string{}
 	for _, d := range []struct{ dir, path, short string }{
 		{"ir", "github.com/llir/llvm/ir", "ir"},
@@ -834,6 +877,49 @@ Record printer := { p_pkg : string; p_type : string; p_method : string; p_recv :
 			}
 		}
 		fmt.Printf("printers asm (debug-info node translators): %d bodies, %d unknown statements\n", n, unknown)
+		// every other function and method of package asm (module, type, global, constant, metadata and value
+		// translation, helpers): the error-flow, crash-site and cache statements range over the whole package
+		have := map[string]bool{}
+		for _, it := range items {
+			if it.pkg == "asm" {
+				have[it.method] = true
+			}
+		}
+		count := map[string]int{}
+		for _, file := range tp.files {
+			for _, decl := range file.Decls {
+				if fd, ok := decl.(*ast.FuncDecl); ok && fd.Body != nil {
+					count[fd.Name.Name]++
+				}
+			}
+		}
+		unknown, n = 0, 0
+		for _, file := range tp.files {
+			if strings.HasSuffix(tp.fset.Position(file.Pos()).Filename, "_test.go") {
+				continue
+			}
+			for _, decl := range file.Decls {
+				fd, ok := decl.(*ast.FuncDecl)
+				if !ok || fd.Body == nil || have["asm."+fd.Name.Name] {
+					continue
+				}
+				name := "asm." + fd.Name.Name
+				if count[fd.Name.Name] > 1 && fd.Recv != nil && len(fd.Recv.List) == 1 {
+					name = "asm." + strings.TrimPrefix(exprString(tp.fset, fd.Recv.List[0].Type), "*") + "." + fd.Name.Name
+				}
+				c := &prCtx{tp: tp, valueMode: true}
+				var ps []string
+				for _, p := range fd.Type.Params.List {
+					for _, nm := range p.Names {
+						ps = append(ps, nm.Name)
+					}
+				}
+				restItems = append(restItems, item{"asm", "", name, strings.Join(ps, ","), c.block(fd.Body.List)})
+				n++
+				unknown += c.unknown
+			}
+		}
+		fmt.Printf("printers asm (the rest of the package): %d bodies, %d unknown statements\n", n, unknown)
 	}
 	sort.Slice(items, func(i, j int) bool {
 		if items[i].typ != items[j].typ {
@@ -845,6 +931,18 @@ Record printer := { p_pkg : string; p_type : string; p_method : string; p_recv :
 	for i, it := range items {
 		sep := ";"
 		if i == len(items)-1 {
+			sep = ""
+		}
+		fmt.Fprintf(f, "  {| p_pkg := %s; p_type := %s; p_method := %s; p_recv := %s; p_body := %s |}%s\n", coqString(it.pkg), coqString(it.typ), coqString(it.method), coqString(it.recv), it.body, sep)
+	}
+	fmt.Fprintln(f, "].")
+	// the rest of package asm, in a table of its own: no statement depends on the exact text of these bodies
+	// (Reviewed/Printers.v does not list them), the statements over all of package asm range over both tables
+	sort.Slice(restItems, func(i, j int) bool { return restItems[i].method < restItems[j].method })
+	fmt.Fprintln(f, "Definition asm_rest : list printer := [")
+	for i, it := range restItems {
+		sep := ";"
+		if i == len(restItems)-1 {
 			sep = ""
 		}
 		fmt.Fprintf(f, "  {| p_pkg := %s; p_type := %s; p_method := %s; p_recv := %s; p_body := %s |}%s\n", coqString(it.pkg), coqString(it.typ), coqString(it.method), coqString(it.recv), it.body, sep)
